@@ -331,22 +331,32 @@ func rlScripts(c *hx.Ctx, n int) []*rlScript {
 			if off < total {
 				bounds = append(bounds, off)
 			}
-			i := c.Rng.Intn(len(bounds))
-			flen := total - bounds[i]
-			if i < len(s.lens) {
-				flen = s.lens[i]
-			}
-			cands := []int{1, 2, 3, d / 2, d - 1, d, d + 1, 2 * d, flen - 1, 1 + c.Rng.Intn(flen)}
-			var ok []int
-			for _, r := range cands {
-				if r >= 1 && (r < flen || (i == len(s.lens) && r == flen)) {
-					ok = append(ok, r)
+			// prefer a cut behind the initial capacity (so that the buffer has grown when the peer stalls)
+			q := -1
+			for try := 0; try < 8; try++ {
+				i := c.Rng.Intn(len(bounds))
+				flen := total - bounds[i]
+				if i < len(s.lens) {
+					flen = s.lens[i]
+				}
+				cands := []int{1, 2, 3, d / 2, d - 1, d, d + 1, 2 * d, flen - 1, 1 + c.Rng.Intn(flen)}
+				var ok []int
+				for _, r := range cands {
+					if r >= 1 && (r < flen || (i == len(s.lens) && r == flen)) {
+						ok = append(ok, r)
+					}
+				}
+				if len(ok) == 0 {
+					continue
+				}
+				q = bounds[i] + c.Rng.Pick(ok)
+				if q >= cap0 || c.Rng.Chance(10) {
+					break
 				}
 			}
-			if len(ok) == 0 {
+			if q < 0 {
 				continue
 			}
-			q := bounds[i] + c.Rng.Pick(ok)
 			if q >= cap0 {
 				// first write: at least the initial capacity
 				w1 := cap0 + c.Rng.Intn(q-cap0+1)
